@@ -183,19 +183,18 @@ def run_parallel(cmds, timeout):
             e = dict(os.environ)
             e.update(env)
             p = subprocess.Popen(argv, stdout=subprocess.PIPE, stderr=subprocess.STDOUT, env=e, preexec_fn=_die_with_parent)
-            running.append((name, p))
+            running.append((name, Watched(p)))
         still = []
-        for name, p in running:
-            try:
-                out, _ = p.communicate(timeout=0.2)
-                res.append((name, p.returncode, out.decode("utf-8", "replace")))
-            except subprocess.TimeoutExpired:
-                if time.time() > t_end:
-                    p.kill()
-                    out, _ = p.communicate()
-                    res.append((name, -999, out.decode("utf-8", "replace")))   # budget hit: inconclusive, never a verdict
-                else:
-                    still.append((name, p))
+        for name, w in running:
+            r = w.poll(0.2 / max(1, len(running)) + 0.01)
+            if r is not None:
+                res.append((name, r[0], r[1]))
+            elif time.time() > t_end:
+                w.p.kill()
+                out, _ = w.p.communicate()
+                res.append((name, -999, out.decode("utf-8", "replace")))   # budget hit: inconclusive, never a verdict
+            else:
+                still.append((name, w))
         running = still
     return res
 
@@ -229,6 +228,48 @@ def _die_with_parent():
         pass
 
 
+def _cpu_ticks(pid):
+    """utime+stime of a process (all threads), in clock ticks; None when it is gone."""
+    try:
+        with open("/proc/%d/stat" % pid) as f:
+            rest = f.read().rsplit(")", 1)[1].split()
+        return int(rest[11]) + int(rest[12])
+    except (OSError, IndexError, ValueError):
+        return None
+
+
+STALL_S = 45        # a process that is alive but has consumed no CPU time at all for this long is blocked (deadlock), not slow
+STALL_MARK = "\n   why: stalled: the process stayed alive for %d s without consuming any CPU time (every thread blocked - a deadlock, e.g. inside the race reporter)\n" % STALL_S
+
+
+class Watched:
+    """A child process observed for CPU progress.  poll() returns None while running, else (returncode, output)."""
+    def __init__(self, p):
+        self.p = p; self.ticks = _cpu_ticks(p.pid); self.since = time.time(); self.stalled = False; self.killed_at = None
+    def poll(self, wait=0.2):
+        try:
+            out, _ = self.p.communicate(timeout=wait)
+            out = out.decode("utf-8", "replace")
+            if self.stalled:
+                return (-778, out + STALL_MARK)
+            return (self.p.returncode, out)
+        except subprocess.TimeoutExpired:
+            pass
+        now = time.time()
+        t = _cpu_ticks(self.p.pid)
+        if t is not None and t != self.ticks:
+            self.ticks = t; self.since = now
+        elif not self.stalled and now - self.since > STALL_S:
+            self.stalled = True; self.killed_at = now
+            try:
+                self.p.send_signal(6)          # SIGABRT: the engine's handler saves the current case, then the process dies
+            except OSError:
+                pass
+        elif self.stalled and now - self.killed_at > 8:
+            self.p.kill()
+        return None
+
+
 def replay_verdict(binp, path, times=3):
     """Replays a saved case `times` times (concurrently) with the plain replay engine.  Returns (reproduces every time, text)."""
     env = dict(os.environ)
@@ -238,14 +279,16 @@ def replay_verdict(binp, path, times=3):
     procs = [subprocess.Popen([binp, "replay", path], stdout=subprocess.PIPE, stderr=subprocess.STDOUT, env=env, preexec_fn=_die_with_parent) for _ in range(times)]
     text = ""
     n_bad = 0
+    t_end = time.time() + 300
     for p in procs:
-        try:
-            out, _ = p.communicate(timeout=180)
-            out = out.decode("utf-8", "replace")
-            rc = p.returncode
-        except subprocess.TimeoutExpired:
-            p.kill(); p.communicate()
-            out, rc = "replay timed out (wall clock; not a verdict)", 0
+        w = Watched(p)
+        res = None
+        while res is None:
+            res = w.poll(0.5)
+            if res is None and time.time() > t_end:
+                p.kill(); p.communicate()
+                res = (0, "replay timed out (wall clock; not a verdict)")
+        rc, out = res
         if rc != 0:
             n_bad += 1
             text = out
@@ -423,6 +466,8 @@ def check(pid, tier):
         elif rc != 0:
             base = os.path.join(work, "%s-%s-%s.case" % (kind, v, idx))
             found = False
+            if rc == -778:
+                notes.append("%s stalled (alive, no CPU time for %d s) and was stopped" % (name, STALL_S))
             for suffix in ("", ".crash", ".hang"):
                 if os.path.exists(base + suffix):
                     candidates.append((v, base + suffix, "%s exit %d%s" % (kind, rc, suffix)))
